@@ -377,6 +377,103 @@ func ruleConverterOrder(c *Ctx, rule string) {
 	}
 }
 
+// ruleConverterIndexAlignment: component i of a converted type comes from component i of the source: inside every counting
+// loop of the converter each indexed getter of the source, g.M(i), flows into a store at the same index, X[i] = ...
+func ruleConverterIndexAlignment(c *Ctx, rule string) {
+	pk := c.P.Pkg("go/types")
+	info := pk.TypesInfo
+	n := 0
+	for _, fd := range c.P.FuncsOf("go/types") {
+		if fd.Body == nil || baseName(c.P.Fset, fd) != "converter.go" {
+			continue
+		}
+		fd := fd
+		ast.Inspect(fd.Body, func(nd ast.Node) bool {
+			f, ok := nd.(*ast.ForStmt)
+			if !ok || f.Init == nil {
+				return true
+			}
+			init, _ := f.Init.(*ast.AssignStmt)
+			if init == nil || len(init.Lhs) != 1 {
+				return true
+			}
+			i := exprString(init.Lhs[0])
+			// getters of the source with index i
+			ast.Inspect(f.Body, func(m ast.Node) bool {
+				call, ok := m.(*ast.CallExpr)
+				if !ok || len(call.Args) != 1 || exprString(call.Args[0]) != i {
+					return true
+				}
+				s, ok := unparen(call.Fun).(*ast.SelectorExpr)
+				if !ok || identOf(s.X) == nil {
+					return true
+				}
+				recv := info.TypeOf(s.X)
+				if recv == nil || !strings.Contains(types.TypeString(recv, nil), "go/types.") || strings.Contains(types.TypeString(recv, nil), "gomacro") {
+					return true
+				}
+				n++
+				// the enclosing statement is X[i] = ... (possibly through a conversion helper) or v := c.mk(g.M(i)) followed by t.Add(v)
+				aligned := false
+				for _, anc := range enclosingStack(f.Body, call) {
+					if as, ok := anc.(*ast.AssignStmt); ok && len(as.Lhs) == 1 {
+						if ix, ok := unparen(as.Lhs[0]).(*ast.IndexExpr); ok && exprString(ix.Index) == i {
+							aligned = true
+						}
+						if as.Tok == token.DEFINE && identOf(as.Lhs[0]) != nil {
+							// m := c.mkfunc(g.Method(i), ...); t.AddMethod(m): order-preserving add
+							name := identOf(as.Lhs[0]).Name
+							inspectCalls(f.Body, func(c2 *ast.CallExpr) {
+								if s2, ok := unparen(c2.Fun).(*ast.SelectorExpr); ok && strings.HasPrefix(s2.Sel.Name, "Add") && len(c2.Args) == 1 && exprString(c2.Args[0]) == name {
+									aligned = true
+								}
+							})
+						}
+					}
+				}
+				c.Ob(rule, funcKey(pk, fd)+"/"+s.Sel.Name+"("+i+")", call, aligned, "component "+i+" of the source is stored as component "+i+" of the result (X["+i+"] = ...), not appended or filtered")
+				return true
+			})
+			return false
+		})
+	}
+	if n < 5 {
+		c.Ob(rule, "go/types.Converter/indexed-getters", nil, false, fmt.Sprintf("%d indexed getters found, at least 5 expected", n))
+	}
+	// Converter.Package: the only return before the scope is converted is the nil guard
+	pf := c.P.Func("go/types.Converter.Package")
+	if pf != nil {
+		loopPos := token.NoPos
+		ast.Inspect(pf.Body, func(nd ast.Node) bool {
+			if rs, ok := nd.(*ast.RangeStmt); ok && strings.HasSuffix(exprString(rs.X), ".Names()") && loopPos == token.NoPos {
+				loopPos = rs.Pos()
+			}
+			return true
+		})
+		early := 0
+		ast.Inspect(pf.Body, func(nd ast.Node) bool {
+			r, ok := nd.(*ast.ReturnStmt)
+			if !ok || r.Pos() > loopPos {
+				return true
+			}
+			// allowed: inside `if g == nil`
+			allowed := false
+			for _, anc := range enclosingStack(pf.Body, r) {
+				if ifs, ok := anc.(*ast.IfStmt); ok {
+					if b, ok := unparen(ifs.Cond).(*ast.BinaryExpr); ok && b.Op == token.EQL && exprString(b.Y) == "nil" && identOf(b.X) != nil && paramIdxOf(info, pf, info.Uses[identOf(b.X)]) == 0 {
+						allowed = true
+					}
+				}
+			}
+			if !allowed {
+				early++
+			}
+			return true
+		})
+		c.Ob(rule, "go/types.Converter.Package/no-early-return", pf, loopPos != token.NoPos && early == 0, "every non-nil package has its whole scope converted: no return precedes the loop over the scope's names except the nil guard")
+	}
+}
+
 func init() {
 	var impl []string
 	for k := range typeComponents {
@@ -388,17 +485,20 @@ func init() {
 		Title: "Converting standard-library type information preserves every exported object",
 		Explanation: "Decided (exhaustiveness and coverage of the recursive conversion): V1 every implementer of the standard types.Type (enumerated from go/types' own type information) has a converting arm in Converter.typ or is one of four excluded kinds with a stated reason (Tuple, TypeParam, Union, Alias), and each arm, followed into its mk* helper, reads every defining component of its kind (" + strings.Join(impl, ", ") + ": element, key, length, direction, fields and tags, receiver/params/results/variadic, explicit methods and embedded types, object/underlying/methods); " +
 			"the object switch converts Const, Func, TypeName and Var (the other implementers of types.Object cannot be exported package members) and each object helper takes position, package, name, type (and constant value / embedded flag) from its source object; " +
-			"V2 order: the conversion cache is consulted before converting and filled afterwards; a named type is cached before its underlying type is converted (recursive types) and queued for method conversion when it has methods; every method is added; Package converts every name of the scope, then completes interfaces, then adds methods. " +
+			"V2 order: the conversion cache is consulted before converting and filled afterwards; a named type is cached before its underlying type is converted (recursive types) and queued for method conversion when it has methods; every method is added; Package converts every name of the scope, then completes interfaces, then adds methods; V3 inside every counting loop of the converter, component i of the source (g.Field(i), g.Tag(i), g.At(i), g.ExplicitMethod(i), g.EmbeddedType(i), g.Method(i)) is stored as component i of the result, and no return precedes the conversion of a non-nil package's scope. " +
 			"Not decided: equality of the converted package with the original (printed forms, method sets).",
 		Assumptions: []string{"go/types of the installed toolchain: set of implementers of types.Type and types.Object", "table of defining components per kind of type (in the checker source)"},
 		Rules: []func(*Ctx){func(c *Ctx) {
 			ruleConverterCoverage(c, "V1-converter-coverage")
 			ruleConverterOrder(c, "V2-converter-order")
+			ruleConverterIndexAlignment(c, "V3-index-alignment")
 			c.Floor("V1-converter-coverage", 25)
 		}},
 		Technique: "AST/type-resolved custom analysis: exhaustiveness of a type switch over the implementers of an interface (from go/types), getter coverage per arm, call-order checks",
 		Mutants: []Mutant{
 			{Name: "struct-tags-dropped", File: "go/types/converter.go", Old: "\t\ttags[i] = g.Tag(i)\n", New: "", Canary: true},
+			{Name: "tags-appended-only-when-present", File: "go/types/converter.go", Old: "\t\ttags[i] = g.Tag(i)\n", New: "\t\tif tag := g.Tag(i); tag != \"\" {\n\t\t\ttags = append(tags[:0:0], append(tags, tag)...)\n\t\t}\n"},
+			{Name: "package-returned-from-stub", File: "go/types/converter.go", Old: "\tc.cache = typeutil.Map{}\n\tp := c.mkpackage(g)\n", New: "\tif p := c.pkg[g.Path()]; p != nil {\n\t\treturn p\n\t}\n\tc.cache = typeutil.Map{}\n\tp := c.mkpackage(g)\n"},
 			{Name: "channel-direction-lost", File: "go/types/converter.go", Old: "t = NewChan(ChanDir(g.Dir()), elem)", New: "t = NewChan(SendRecv, elem)"},
 			{Name: "variadic-flag-lost", File: "go/types/converter.go", Old: "\t\tg.Variadic(),\n", New: "\t\tfalse,\n"},
 			{Name: "embedded-interfaces-dropped", File: "go/types/converter.go", Old: "\tn = g.NumEmbeddeds()\n", New: "\tn = 0\n"},
